@@ -41,7 +41,9 @@ MANIFEST = {
             'POD-free types (finding C15-F1 fixed). Handler '
             'selection conditions, count width and ByteSwap arithmetic are regenerated from the source each run; the '
             'model is tied to the code by differential execution of two builds of the real serializer (default and '
-            'DMLC_IO_USE_LITTLE_ENDIAN=0) linked into one harness; independent reference encoder as oracle.',
+            'DMLC_IO_USE_LITTLE_ENDIAN=0) linked into one harness; independent reference encoder as oracle. The library\'s own class with Save/Load, RowBlockContainer, is checked as an instance (real code in the harness; '
+            'theorems: round trip, prefix determines the result, no strict prefix loads, image = serializer encoding of its nine members, '
+            'host independent).',
     'design_ref': 'DESIGN.md section 7 C15',
     'note': 'Trusted: Lean kernel, translator, correspondence on sampled cases only; control flow hand-modelled; '
             'little-endian host; std container insertion semantics modelled.',
